@@ -8,7 +8,7 @@ from exv.sysscen import child, gen_script
 PID = 'C07'
 
 
-def gen_cases(tier, seed, judge=('C07',), n=None, queries=False):
+def gen_cases(tier, seed, judge=('C07',), n=None, queries=False, longpark_in_quick=True):
     rng = random.Random(seed * 1000003 + 7 + len(judge) * 31 + sum(map(ord, judge[0])))
     n = n or (100 if tier == 'quick' else 2000)
     cases = []
@@ -21,7 +21,8 @@ def gen_cases(tier, seed, judge=('C07',), n=None, queries=False):
                       'flushkind': fk, 'flushvec': flushvec_of(fk, random.Random(rng.randrange(1 << 30))),
                       'policy': rng.choice(('random', 'random', 'lazy', 'pct')), 'p': rng.choice((0.1, 0.3, 0.6)),
                       'latency': rng.choice((None, (0, 0.1, 1), (0, 0.1, 1, 3, 6))), 'txindex': i % 2 == 0,
-                      'prefetch': rng.choice((1, 2, 100)), 'n0': rng.choice((10, 14, 20)), 'sample': i < 2, 'colls': rng.choice((0, 1))})
+                      'prefetch': rng.choice((1, 2, 100)), 'n0': rng.choice((10, 14, 20)), 'sample': i < 2, 'colls': rng.choice((0, 1)),
+                      'longpark': (0.25 if i % 5 == 3 else None) if tier == 'thorough' or longpark_in_quick else None})
     return cases
 
 
